@@ -21,6 +21,7 @@ stubs of callees) except for directive blocks of the form
     <requires / ensures lines for that closure>
     //@ insert before|after|entry "<anchor text>"
     //@ insert loop-start|loop-end <k>      (structural: first/last position inside the k-th source loop's body)
+    //@ insert after-let <name>             (structural: after the end of the statement `let [mut] <name> .. ;`)
     <ghost lines>
     //@end
 
@@ -699,6 +700,12 @@ def parse_template(text):
                 elif kind == 'insert':
                     mm = re.match(r'^(before|after|entry)\s*(?:"((?:[^"\\]|\\.)*)")?\s*$', arg.strip())
                     ml = re.match(r'^(loop-start|loop-end)\s+(\d+)\s*$', arg.strip())
+                    mlet = re.match(r'^after-let\s+(\w+)\s*$', arg.strip())
+                    if mlet:
+                        # structural anchor: after the END of the statement `let [mut] <name> .. ;` (first such statement)
+                        d.inserts.append(('after-let', mlet.group(1), sec_lines))
+                        section, sec_lines = None, None
+                        return
                     if ml:
                         # structural anchor: first/last position inside the body of the k-th source loop
                         d.inserts.append((ml.group(1), int(ml.group(2)), sec_lines))
@@ -1148,6 +1155,25 @@ def lift_one(d, repo, canary=False, rename_suffix=None, path_map=None):
         txt = '\n'.join(lines) + '\n'
         if mode == 'entry':
             body.insert(1, '\n' + txt)
+        elif mode == 'after-let':
+            ms_ = [m_ for m_ in code_finditer(body.s, body.k, r'\blet\s+(?:mut\s+)?' + re.escape(anchor) + r'\b') if body.o[m_.start()] is not None]
+            if not ms_:
+                raise LiftError("%s: insert after-let: no `let %s` in the body" % (info['name'], anchor))
+            j = ms_[0].end()
+            depth = 0
+            while j < len(body.s):
+                if body.k[j] == CODE:
+                    c_ = body.s[j]
+                    if c_ in OPEN:
+                        depth += 1
+                    elif c_ in CLOSE:
+                        depth -= 1
+                    elif c_ == ';' and depth == 0:
+                        break
+                j += 1
+            le = body.s.find('\n', j)
+            le = len(body.s) - 1 if le < 0 else le + 1
+            body.insert(le, txt)
         elif mode in ('loop-start', 'loop-end'):
             lp = [(off, kw) for (off, kw) in loop_positions(body, 0, len(body.s)) if body.o[off] is not None]
             if anchor < 1 or anchor > len(lp):
